@@ -950,6 +950,14 @@ func (e *boundsEngine) nonneg(v ssa.Value, facts []fact, use ssa.Instruction, de
 					return true
 				}
 			}
+			// an element of an int-slice field into which only non-negative values are ever put (lineStarts)
+			if ia, ok := x.X.(*ssa.IndexAddr); ok && isIntType(x.Type()) {
+				if ld, ok := ia.X.(*ssa.UnOp); ok && ld.Op == token.MUL {
+					if fa, ok := ld.X.(*ssa.FieldAddr); ok && e.nonnegElemsField(fieldKey(fa.X, fa.Field)) {
+						return true
+					}
+				}
+			}
 			if a, ok := x.X.(*ssa.Alloc); ok {
 				all := true
 				n := 0
@@ -1110,6 +1118,103 @@ func (e *boundsEngine) nonnegField(key string) bool {
 		e.nonnegF[key] = 1
 	} else {
 		e.nonnegF[key] = 2
+	}
+	return ok
+}
+
+// nonnegElemsField: every element ever put into the int-slice field (Type.f) is non-negative: whole-slice stores are
+// make / reslices / append chains / literals with non-negative elements, element stores store non-negative values.
+func (e *boundsEngine) nonnegElemsField(key string) bool {
+	k2 := "[]" + key
+	if v, ok := e.nonnegF[k2]; ok {
+		return v == 1
+	}
+	e.nonnegF[k2] = 1 // optimistic: appends to the field's own value
+	ok := true
+	n := 0
+	var elems func(v ssa.Value, at *ssa.BasicBlock, use ssa.Instruction, d int) bool
+	elems = func(v ssa.Value, at *ssa.BasicBlock, use ssa.Instruction, d int) bool {
+		if d > 8 || v == nil {
+			return false
+		}
+		switch x := v.(type) {
+		case *ssa.Const:
+			return x.IsNil()
+		case *ssa.MakeSlice:
+			return true
+		case *ssa.Slice:
+			return elems(x.X, at, use, d+1)
+		case *ssa.UnOp:
+			if x.Op == token.MUL {
+				if fa, ok := x.X.(*ssa.FieldAddr); ok {
+					return fieldKey(fa.X, fa.Field) == key || e.nonnegElemsField(fieldKey(fa.X, fa.Field))
+				}
+			}
+		case *ssa.Alloc:
+			// array literal / variadic backing array: every element store
+			good := true
+			cnt := 0
+			for _, ref := range core.Referrers(x) {
+				if ia, ok := ref.(*ssa.IndexAddr); ok {
+					for _, r2 := range core.Referrers(ia) {
+						if st, ok := r2.(*ssa.Store); ok && st.Addr == ssa.Value(ia) {
+							cnt++
+							if !e.nonneg(st.Val, e.dominatingFacts(st.Block()), st, 0, map[ssa.Value]bool{}) {
+								good = false
+							}
+						}
+					}
+				}
+			}
+			return good && cnt >= 0
+		case *ssa.Phi:
+			for _, ed := range x.Edges {
+				if ed != v && !elems(ed, at, use, d+1) {
+					return false
+				}
+			}
+			return true
+		case *ssa.Call:
+			if core.IsBuiltinCall(&x.Call, "append") && len(x.Call.Args) == 2 {
+				return elems(x.Call.Args[0], at, use, d+1) && elems(x.Call.Args[1], at, use, d+1)
+			}
+		}
+		return false
+	}
+	for _, fn := range e.p.ModuleFuncs() {
+		for _, b := range fn.Blocks {
+			for _, in := range b.Instrs {
+				st, isSt := in.(*ssa.Store)
+				if !isSt {
+					continue
+				}
+				if fa, isFa := st.Addr.(*ssa.FieldAddr); isFa && fieldKey(fa.X, fa.Field) == key {
+					n++
+					if !elems(st.Val, b, in, 0) {
+						ok = false
+					}
+					continue
+				}
+				if ia, isIa := st.Addr.(*ssa.IndexAddr); isIa {
+					if ld, isLd := ia.X.(*ssa.UnOp); isLd && ld.Op == token.MUL {
+						if fa, isFa := ld.X.(*ssa.FieldAddr); isFa && fieldKey(fa.X, fa.Field) == key {
+							n++
+							if !e.nonneg(st.Val, e.dominatingFacts(b), in, 0, map[ssa.Value]bool{}) {
+								ok = false
+							}
+						}
+					}
+				}
+			}
+		}
+	}
+	if n == 0 {
+		ok = false
+	}
+	if ok {
+		e.nonnegF[k2] = 1
+	} else {
+		e.nonnegF[k2] = 2
 	}
 	return ok
 }
